@@ -363,6 +363,21 @@ def D13():
     return f
 
 
+def D14():
+    """C03: create -dr with a removed directory that was recorded without hashes (-n generation)"""
+    f = []
+    with tempdir() as d:
+        r = _root(d)
+        mk(r, {"a.txt": "aaa", "d/": None})
+        run("create", [r, "-h", "md5", "-n"], NOW)
+        os.rmdir(r + "/d")
+        mk(r, {"b.txt": "bbb"})
+        x = run("create", [r, "-h", "md5", "-dr"], NOW)
+        if x.exit != 10 or x.exc is not None:
+            f.append(f"create -dr after removing a directory recorded by a -n generation: exit {x.exit} exc {x.exc} (expected 10)")
+    return f
+
+
 ALL = {
     k: v
     for k, v in list(globals().items())
